@@ -4,7 +4,7 @@
 From Coq Require Import Extraction ExtrOcamlBasic.
 From Coq Require Import ZArith List.
 From GB Require Import Num NumB NumQ Event Intersect Cmp Heap Outcome Divide Fields FillQueue Subdivide Connect BoolOp.
-From GB Require Splay SplayOps Slab Scene Convert Cert13 Cert13Cover Cert04 Cert14.
+From GB Require Splay SplayOps Slab Scene Convert Cert13 Cert13Cover Cert04 Cert14 Cert02Edges.
 
 Extraction Blacklist List String Int.
 
@@ -25,7 +25,7 @@ Separate Extraction
   Splay.empty SplayOps.run SplayOps.step Splay.inorder Splay.root Splay.height
   Cert13.planar_q Cert13.planar_64 Cert13.planar_32 Cert13.planar_check
   Cert13Cover.cover_q Cert13Cover.cover_64 Cert13Cover.cover_32 Cert13Cover.cover_check
-  Cert04.cert04
+  Cert04.cert04 Cert02Edges.no_shared_boundary
   Cert14.cert14_q Cert14.cert14_64 Cert14.cert14_32
   Convert.sf2q Convert.sfpt Scene.check_scene Scene.cert01 Scene.cert02_reading Slab.mkQpt
   Z.of_nat Z.to_nat N.of_nat N.to_nat Pos.of_nat Pos.to_nat.
